@@ -86,8 +86,18 @@ static void run_d1(uint64_t idx) {
   s.coeffs = tg::make_coeffs(1, s.ncoeffs(), H->seed, idx);
   std::string tabkey = vf::fmt("d=1:order=%u:knots=%s:count=+%d:%s", o, tg::pattern_name(v[1]), (int)(count_for(o, v[2]) - 2 * o - 2), xname[v[3]]);
   H->hint(tabkey);
-  Table t; tg::build(t, s);
-  for (auto& c : candidates(s.dims[0].knots, o)) check(t, s, {c.x}, tabkey, c.cls);
+  // lookup is a function of the knots alone: the stored extents (which a FITS file or a convolution may set to anything) and
+  // periods must not influence it — the same walk for default extents, extents strictly inside the supported range, extents
+  // reaching into both margins, extents far outside the knots, and inverted extents
+  auto& k = s.dims[0].knots; size_t n = k.size(), na = s.dims[0].naxes();
+  auto mid = [&](size_t i) { return k[i] + 0.5 * (k[i + 1] - k[i]); };
+  for (int ev = 0; ev < 5; ev++) {
+    s.extents.clear();
+    if (ev == 1) s.extents = {mid(o), mid(na - 1)}; else if (ev == 2) s.extents = {mid(0), mid(n - 2)}; else if (ev == 3) s.extents = {k[0] - 10 * (k[n - 1] - k[0]) - 1, k[n - 1] + 10 * (k[n - 1] - k[0]) + 1}; else if (ev == 4) s.extents = {k[na], k[o]};
+    static const char* EN[] = {"", ":extents=inside-support", ":extents=in-margins", ":extents=beyond-knots", ":extents=inverted"};
+    Table t; tg::build(t, s);
+    for (auto& c : candidates(k, o)) check(t, s, {c.x}, tabkey + EN[ev], c.cls);
+  }
 }
 
 // six structural classes per axis for the conjunction over dimensions
@@ -107,11 +117,14 @@ static void run_dn(int d, uint64_t idx) {
   s.coeffs = tg::make_coeffs(1, s.ncoeffs(), H->seed, tab);
   std::string tabkey = vf::fmt("d=%d:tab=%llu", d, (unsigned long long)tab);
   H->hint(tabkey);
-  Table t; tg::build(t, s);
   std::vector<double> x(d); std::string cls;
   for (int i = d - 1; i >= 0; i--) { auto S = six(s.dims[i]); x[i] = S[comb % 6].x; cls = std::string(S[comb % 6].cls) + (cls.empty() ? "" : ",") + cls; comb /= 6; }
-  // coarse class: does any axis reject?
-  check(t, s, x, tabkey, cls);
+  for (int ev = 0; ev < 2; ev++) {   // default extents, and extents that reach into the margins of every dimension
+    s.extents.clear();
+    if (ev) for (int i = 0; i < d; i++) { auto& k = s.dims[i].knots; s.extents.push_back(k[0] + 0.5 * (k[1] - k[0])); s.extents.push_back(k[k.size() - 2] + 0.5 * (k[k.size() - 1] - k[k.size() - 2])); }
+    Table t; tg::build(t, s);
+    check(t, s, x, tabkey + (ev ? ":extents=in-margins" : ""), cls);
+  }
 }
 
 int main(int argc, char** argv) {
@@ -119,7 +132,7 @@ int main(int argc, char** argv) {
   H = &h;
   g_thorough = h.thorough;
   h.meta("level", "exploration");
-  h.meta("rule", "complete walk: d=1: 6 orders x 6 knot patterns x 4 knot counts x 6 magnitude transforms (identity, x1e300, x1e-300, negated, consecutive denormals, +1e15) x every structural coordinate class (every knot, both float neighbours, interval midpoints and 1/7 points, k0, both outside neighbours, +-inf, +-DBL_MAX, +-denormal, +-0, far outside); d=2,3: 12 tables x full tensor of 6 classes per axis; oracle = independent specification of acceptance and bracketing; distinct = (table key, coordinate class tuple)");
+  h.meta("rule", "complete walk: d=1: 6 orders x 6 knot patterns x 4 knot counts x 6 magnitude transforms (identity, x1e300, x1e-300, negated, consecutive denormals, +1e15) x {default extents, extents inside the support, reaching into the margins, far beyond the knots, inverted} x every structural coordinate class (every knot, both float neighbours, interval midpoints and 1/7 points, k0, both outside neighbours, +-inf, +-DBL_MAX, +-denormal, +-0, far outside); d=2,3: 12 tables x full tensor of 6 classes per axis; oracle = independent specification of acceptance and bracketing; distinct = (table key, coordinate class tuple)");
   h.meta("assumption", "NaN coordinates are excluded by the property (they belong to C05)");
   h.meta("assumption", "termination is enforced by a 20 s per-case timer");
   h.meta("require_accepted", "1000");
